@@ -12,136 +12,74 @@ Definition show_fres (r : fres) : string :=
   end.
 Definition check (rs : list rune) : string := digest (show_fres (format_res rs)).
 Definition full (rs : list rune) : string := show_fres (format_res rs).
-Eval vm_compute in ("<<<M1343>>>" ++ check (runes_of_ascii "// top
-options
-    // c0
-{ // c1a
-  // c1b
-LittleEndian
-    // c2
-= // c3a
-  // c3b
-false
-    // c4
-; ArrayPrefixLenType = // c7a
-  // c7b
-u8
-    // c8
-; // c9
-FixedStringPadFromLeft // c10a
-  // c10b
-= // c11
-true ; // c13
-FixedStringPadChar
-    // c14
-= '0' // c16
-;
-    // c17
-} // c18
-packet
-    // c19
-Heartbeat {
-    // c21
-string lastPx , uint8 // c25
-Qty ,
-    // c27
-i64 // c28a
-  // c28b
-Acct
-    // c29
+Eval vm_compute in ("<<<M339>>>" ++ check (runes_of_ascii "// @lengthOf(
+packet A { repeat rootA
+{ repeat o , BodyLength i64_ `// not a comment` ,  repeatCount @calculatedFrom(""it's"" ) , }
+    // @lengthOf(
+    ,
+//x
+//x
+@tag( 0 ) falsey @lengthOf( BodyLength
+), @leftPad ( ) @calculatedFrom( ""1"" )
+@lengthOf(int ) match trueish
+as body // trailing space 
+{ [ 007
+, 7
 ,
-    // c30
-char[ // c31
-4 ] // c33
-Ref // c34
-, // c35
-} packet // c37
-Fill // c38
-{ // c39
-uint8 // c40a
-  // c40b
-Ref // c41
-, Heartbeat // c43
-, // c44a
-  // c44b
-f32 // c45
-OrderId , // c47
-repeat f32 // c49
-x
-    // c50
-, // c51a
-  // c51b
-} root packet Order
-    // c55
-{ // c56a
-  // c56b
-zchar[
-    // c57
-2 // c58
-] // c59a
-  // c59b
-OrderId ,
-    // c61
-zchar[ // c62a
-  // c62b
-2 ]
-    // c64
-Acct
-    // c65
+    ""abc"",
+""x y"" ,  00 , ""// no comment"" ,
+    255, 1
+]: body
+, } , @lengthOf( Pad ) metadata@calculatedFrom( ""it's"" )
 ,
-    // c66
-zchar[ // c67
-1 ] // c69
-Note // c70a
-  // c70b
+    // `tick` ""quote"" 'q'
+    @leftPad() @calculatedFrom(	""" ++ [233]%N ++ runes_of_ascii "t" ++ [233]%N ++ runes_of_ascii """ ) char falsey `" ++ [233]%N ++ runes_of_ascii "`,char[
+007 ] metadata @lengthOf( chars) , @rightPad ( '0'
+) u8 // c
+roots@calculatedFrom( ""packet"" ) ,
+    string_ MetaDataX ,@lengthOf( Z9_ ) @leftPad ( '\x00' ) /// triple
+@rightPad
+    ( ' ' //
+) MetaDataX
+    `two words`  ,zchar[
+0
+    ]
+body// " ++ [27880; 37322]%N ++ runes_of_ascii "
+`line1
+line2` , } packet
+    // packet A { u8 x, }
+    uint8x {@rightPad  ( '0' )
+    //	t
+    char[]stringy,MetaDataX Z9_ , i8 Logon , } root packet
+    //	t
+    u // " ++ [128512]%N ++ runes_of_ascii " emoji
+{ int64 Z9_
+    , zchar[ 00 ]
+    string_
+    //
+    `" ++ [28040; 24687; 31867; 22411]%N ++ runes_of_ascii "` ,
+    @calculatedFrom(""a\""b""
+    )
+@tag( 3  ) @rightPad (
+'0' ) repeat u32 packetx `two words` , char[42
+] string_ , repeat Header lengthOf ,
+}
+options // packet A { u8 x, }
+{	} packet Header
+// " ++ [128512]%N ++ runes_of_ascii " emoji
+// packet A { u8 x, }
+{ @rightPad
+(//x
+)metadata { char[ 65535// c
+]o, repeat x
+// c
+/// triple
+{char[
+4294967296 ]  options1 , }
+// c
+// a // b
 ,
-    // c71
-zchar[
-    // c72
-9 // c73
-] Qty // c75a
-  // c75b
-, // c76a
-  // c76b
-string price // c78
-, // c79
-string // c80a
-  // c80b
-tag7
-    // c81
-, // c82a
-  // c82b
-u32
-    // c83
-x
-    // c84
-, // c85a
-  // c85b
-match // c86
-x as // c88
-Body // c89
-{ // c90
-123 // c91
-: // c92a
-  // c92b
-Fill , // c94a
-  // c94b
-112 // c95a
-  // c95b
-: // c96a
-  // c96b
-Heartbeat , // c98
-} // c99
-, // c100
-u32 seqNo
-    // c102
-@calculatedFrom( // c103
-""CRC32"" // c104
-)
-    // c105
-,
-    // c106
-} // c107
+roots Header, } , }
 ")).
 Eval vm_compute in ("<<<M43>>>" ++ check (runes_of_ascii "packet asx {
     leftPad@calculatedFrom( """ ++ [233]%N ++ runes_of_ascii "t" ++ [233]%N ++ runes_of_ascii """ ) , @leftPad
@@ -290,220 +228,261 @@ line2`,Packet `" ++ [28040; 24687; 31867; 22411]%N ++ runes_of_ascii "` , } ,// 
     repeatCount @calculatedFrom(""\" ++ [233]%N ++ runes_of_ascii """ ) , repeat
     char[] Pad
 `a\` ,  @lengthOf( pack )	i8 int , }")).
-Eval vm_compute in ("<<<M230>>>" ++ check (runes_of_ascii "packet rootA{	match
-zchar as
-    // " ++ [128512]%N ++ runes_of_ascii " emoji
-    int {
-    [ ""it's""
-, ""1""]
-    :// c
-tag ,
-    } , char Packet @lengthOf( body ) , metadata @lengthOf( packetx ) ,@calculatedFrom( """ ++ [128512]%N ++ runes_of_ascii """	)match
-    repeatCount as f32a { """ ++ [28040; 24687]%N ++ runes_of_ascii """
-    :chars ,
-    }
-    ,@lengthOf(string_ )char[ 0
-    //
-    ] len @calculatedFrom(
-""abc"" )
+Eval vm_compute in ("<<<M1495>>>" ++ check (runes_of_ascii "
+options  { StringPrefixLenType
+
+    =u8 ;	ArrayPrefixLenType  = u32
+    ;
+FixedStringPadFromLeft = true ;	FixedStringPadChar
+=
+' ' ;
+
+} packet Leg 
+{ 
+} packet 
+Heartbeat	{
+zchar[  6]
+msgKind , @rightPad ( 
+'0'
+
+    )
+
+    char[ 
+3
+
+]  Qty 
 ,
-    // `tick` ""quote"" 'q'
-    u8 uint8x@lengthOf( roots)  `say ""hi""`
-, int @calculatedFrom( ""a\""b"") ,match
-msg_type as i8i8 {// c
-""\" ++ [233]%N ++ runes_of_ascii """
-// " ++ [27880; 37322]%N ++ runes_of_ascii "
-// packet A { u8 x, }
-: Header , 1 : zchar,
-    [ ""\n""	]
-:	string_
-""\n"" :i8i8 0123456789 : Logon
-    [ 00 , 007 ,""1"" ,
-    //	t
-    ""it's""
-    , ""// no comment""
+
+zchar[ 9]
+Side2  ,
+
+    i8 Acct
+,  }
+    packet  Logout
+    {
+int8
+x	, }packet
+
+    Order
+
+{ char[] Acct 
+,
+    zchar[
+
+    8
+]	count
+
+,
+u32 OrderId
+,
+
+    uint8	lastPx
+
     ,
-    0
-, ""a\\"" ,// packet A { u8 x, }
-007 ]
-    :BodyLength}
-, match rootA as // c
-chars  {
+	u16 clOrdID 
+, 
+zchar[
 7
-:
+    ]
+Note ,
+	}
+
+    root packet
+
+Reject{
+@leftPad
+(
+    ' ' )char[
+8
+] Side2  ,
+i8
+clOrdID
+, repeat
+
+    f32
+
+    x, u32
+	lastPx,
+match	lastPx
+
+as
+	Body
+
+    {
+[  30
+    ,  147
+
+] :
+	Heartbeat,
+
+134 :Leg
+
+,183 
+: Logout
+,
+
+40	:
+    Order
+	,
+	}
+,u16
+Ref @calculatedFrom(
+
+""CR\
+C32""  )
+    ,
+}")).
+Eval vm_compute in ("<<<M201>>>" ++ check (runes_of_ascii "packet charz
+{ //	t
+repeat i64_ ,trueish {
+repeat _x
+    ,	repeatCount, repeat u16
+matchKey `
+`
+,
+// " ++ [128512]%N ++ runes_of_ascii " emoji
+// a // b
+matchKey @calculatedFrom( ""a\""b"" )
+`it's` ,}	,
+@tag(
+007 )@calculatedFrom(
+    ""a\\"")	@tag(
+    3 // @lengthOf(
+)f32 f32a @lengthOf(asx ) `crlf
+line` // packet A { u8 x, }
+, repeat i8 string_
+,
+    @lengthOf(
     // @lengthOf(
-    Header }
-, A Foo `tab	here` ,
+    Logon  ) @lengthOf( x_y_z )
+    @lengthOf(
+zchar
+    ) repeat char[ 65535	] Foo`" ++ [233]%N ++ runes_of_ascii "`,
+@calculatedFrom(//
+""abc""
+) trueish @lengthOf( A )
+// " ++ [27880; 37322]%N ++ runes_of_ascii "
+// a // b
+,char[ 0 ] float , Packet
+    @calculatedFrom( ""a	b""
+), } MetaData
+    Pad { char[ 00 ] leftPad , u8 rootA `
+`,
+//
+// " ++ [128512]%N ++ runes_of_ascii " emoji
+int32
+    a1	`say ""hi""`
+    ,
+Z9_ float , //x
+i32 Pad ,
+}")).
+Eval vm_compute in ("<<<M147>>>" ++ check (runes_of_ascii "root
+    packet falsey{	@tag( 255) len@calculatedFrom( ""`tick`""
+    )//
+,match MetaDataX as
+crc
+{	[7 ] :
+    roots ,} ,	@tag( 10 ) @tag(
+// `tick` ""quote"" 'q'
+// `tick` ""quote"" 'q'
+10//
+) @tag( 255)	repeat /// triple
+uint64 rootA	, tag // a // b
+`" ++ [28040; 24687; 31867; 22411]%N ++ runes_of_ascii "` ,
+float32  i64_ , int64 _x  `doc` , @leftPad( ' '
+    )
+match
+// @lengthOf(
+// @lengthOf(
+i8i8 as pack { // `tick` ""quote"" 'q'
+7 : Logon , ""x y"" : lengthOf , } , // trailing space 
+match x_y_z as u
+{
+// `tick` ""quote"" 'q'
+// " ++ [27880; 37322]%N ++ runes_of_ascii "
+[ 0123456789 ] :	packetx ,007 :x_y_z
+// trailing space 
+//
+, 10 : rootA , 7 : u 0123456789 :falsey
+, }	, // packet A { u8 x, }
 }
 ")).
-Eval vm_compute in ("<<<M369>>>" ++ check (runes_of_ascii "root
-packet leftPad { @calculatedFrom( """ ++ [128512]%N ++ runes_of_ascii """) int64 len
-`{ , }` , } packet
-    u128
-    { zchar[ 65535 ] chars @calculatedFrom( ""\" ++ [233]%N ++ runes_of_ascii """
-    ), @lengthOf(  int
-// packet A { u8 x, }
-// @lengthOf(
-) i64_ , crc { match	Z9_ as Logon
-    {
-10 : int ,
-[ 0 ]
-: u8x ,
-// trailing space 
-//x
-42 :
-    trueish , [ ""\" ++ [233]%N ++ runes_of_ascii """ , 4294967296
-    ]
-:Z9_
-    ""\n""	: u128 ,	} ,
-    repeat string_ uint8x, i8i8 , match u as body
-{ 4294967296:
-// " ++ [27880; 37322]%N ++ runes_of_ascii "
-/// triple
-Z9_, 10
-:	Z9_,
-[ """ ++ [128512]%N ++ runes_of_ascii """
-    ,
-    ""x y"" ]
-: pack ,
-    } , }
-, @tag( // " ++ [128512]%N ++ runes_of_ascii " emoji
-0123456789 )
-    @lengthOf( calculatedFrom) @leftPad ( '\x00' // c
-) zchar[ 3 ]
-    T ,
-match A  as
-    leftPad{ [ """ ++ [28040; 24687]%N ++ runes_of_ascii """ ] :i64_""// no comment"" :
-    string_
-    ,
-} , } // trailing space ")).
-Eval vm_compute in ("<<<M87>>>" ++ check (runes_of_ascii "root packet matchKey{ match	Foo as Z9_ {// c
-[ ""x y"" , ""1"" ,
-    007
-, 7 ]: pack,
-""`tick`"" :
-u128 ,""a	b"" :msg_type,[
-//
-//
-00 ,	65535
-] : a1, ""it's"" :Foo
-    , // " ++ [128512]%N ++ runes_of_ascii " emoji
-[ //x
-""""
-] : u, } ,
-} packet calculatedFrom // c
-{msg_type {
-    T @calculatedFrom( ""\n"" ) ,float64 i8i8, As`
-`, u32 rootA @lengthOf(
-// c
-// `tick` ""quote"" 'q'
-float
-) ,}
-, }
-    packet
-    // " ++ [27880; 37322]%N ++ runes_of_ascii "
-    x_y_z
-{@tag( //x
-0 ) i64_
-    // " ++ [27880; 37322]%N ++ runes_of_ascii "
-    @lengthOf(
-    //
-    MetaDataX
-) ,	}packet A { @calculatedFrom( ""a\\"" )@calculatedFrom(""abc"" ) _x
-u	`say ""hi""` ,
-    } options
-    // `tick` ""quote"" 'q'
-    { // trailing space 
-metadata = ""a\\"" ; // a // b
+Eval vm_compute in ("<<<M1116>>>" ++ check (runes_of_ascii "// top
+MetaData // c0
+Packet // c1
+{ // c2
+} // c3
+packet // c4
+charz // c5
+{ // c6
+Foo // c7
+asx // c8
+`it's` // c9
+, // c10
+@lengthOf( // c11
+T // c12
+) // c13
+@calculatedFrom( // c14
+"""" // c15
+) // c16
+@calculatedFrom( // c17
+""x y"" // c18
+) // c19
+zchar[ // c20
+007 // c21
+] // c22
+repeatCount // c23
+@lengthOf( // c24
+int // c25
+) // c26
+`a\` // c27
+, // c28
+i8 // c29
+string_ // c30
+, // c31
+repeat // c32
+options1 // c33
+Pad // c34
+, // c35
+} // c36
+root // c37
+packet // c38
+Packet // c39
+{ // c40
+int8 // c41
+float // c42
+`doc` // c43
+, // c44
+} // c45
+")).
+Eval vm_compute in ("<<<M1846>>>" ++ check (runes_of_ascii "//x
+root packet float {
+    options1 A,
+    @tag(42)
+    u8x {
+        tag @calculatedFrom(""\" ++ [233]%N ++ runes_of_ascii """) `tab	here`,
+    },
+    int16 asx,
+    @lengthOf(o)
+    @rightPad()
+    repeat int Logon,
+    @calculatedFrom(""// no comment"")
+    @leftPad('\x00')
+    @rightPad('0')
+    zchar[65535] o `
+    `,
+    repeat As {
+        //x
+        repeat uint16 o,
+        repeat char[1] o,
+        u128 metadata,
+        repeat char[7] Header,
+    },
+    @tag(0123456789)
+    a1 tag,
+    float32 asx,
+    repeat len ``,
 }")).
-Eval vm_compute in ("<<<M113>>>" ++ check (runes_of_ascii "options	{
-As
-= // packet A { u8 x, }
-' '}MetaData o{} root packet pack
-{ } packet tag // " ++ [128512]%N ++ runes_of_ascii " emoji
-{ match falsey as
-BodyLength	{ 4294967296
-:
-    lengthOf
-// c
-// " ++ [27880; 37322]%N ++ runes_of_ascii "
-,[ ""x y""
-,""a\\""
-    ]
-    : rootA , [
-42 , ""a	b"" ,
-    ""CRC32"" , 65535 ,""abc"" , 007 ]
-:
-u8x	""x y"" : A ,
-    /// triple
-    65535 :  i64_,
-    0123456789 :
-    Packet }
-    , @lengthOf(  msg_type)	pack msg_type,
-    @tag( 0 )@lengthOf( Packet
-)/// triple
-@tag(
-3 )
-//	t
-// " ++ [128512]%N ++ runes_of_ascii " emoji
-Foo , repeat float64 zchar, @calculatedFrom(
-""a\""b""
-) @lengthOf(A )@lengthOf( roots
-) options1 @lengthOf(
-Z9_ ),char[] T ,  }")).
-Eval vm_compute in ("<<<M1745>>>" ++ check (runes_of_ascii "
-MetaData  BodyLength	{
-
-zchar[65535	]  As
-`crlf
-line` ,  u16 
-charz
-
-    , 
-body
-len
-,zchar
-	msg_type,
-    uint64 metadata ,
-    }root
-
-packet	//
-	matchKey
-{
-	repeat
-
-    i8i8  `{ , }`	,
-}
-
-    MetaData 
-a1
-	{i8i8 
-Pad `it's` ,  
-  // trailing space 
-    // `tick` ""quote"" 'q'
-
-int64
-
-// " ++ [128512]%N ++ runes_of_ascii " emoji
-roots
-    `doc`,
-
-    Foo BodyLength `u8 x,` , }packet
-    _x
-	{ lengthOf
-	{  pack `" ++ [28040; 24687; 31867; 22411]%N ++ runes_of_ascii "`
-    , string_ 	 // @lengthOf(
-    	,
-    repeat //
-	rootA
-    len
-
-    ,zchar[
-
-1 
-] u8x	,
-	}	,
-	} ")).
 Eval vm_compute in ("<<<M253>>>" ++ check (runes_of_ascii "packet
 u	{ @lengthOf( //
 zchar )match Header as len  {
@@ -529,191 +508,170 @@ options {	len	= //	t
 i8 // " ++ [27880; 37322]%N ++ runes_of_ascii "
 ; zchar = true; } packet T{char[ 42 ] asx@calculatedFrom(""CRC32"" ) , }
 ")).
-Eval vm_compute in ("<<<M0>>>" ++ check (runes_of_ascii "packet leftPad// trailing space 
-{@tag( 10 )
-    @tag( 007 ) @lengthOf(	a1 )
-// a // b
-//
-repeat metadata
-    ,
-} // " ++ [128512]%N ++ runes_of_ascii " emoji
-options
-    // @lengthOf(
-    { lengthOf
-= """ ++ [128512]%N ++ runes_of_ascii """	;
-}  packet T
-    // " ++ [27880; 37322]%N ++ runes_of_ascii "
-    { A
-{
-//
-// `tick` ""quote"" 'q'
-tag@calculatedFrom(""abc"")
-, }
-    , @lengthOf( matchKey
-    ) string	Header @lengthOf( metadata
-) ,leftPad
-    // trailing space 
-    @calculatedFrom(
-""a\""b"" )`crlf
-line`,}
-")).
-Eval vm_compute in ("<<<M1800>>>" ++ check (runes_of_ascii "// top
-root packet _x {
-    match Foo as Z9_ {
-        // c8
-        ""a	b"" : Pad,
-        // c12
-    },// c14
-    repeat x `line1
-    line2`,// c18
-    @rightPad(' ')
-    // c22
-    @calculatedFrom(""a\\"")
-    // c25a
-    // c25b
-    metadata MetaDataX,
-    @tag(0)
-    // c31
-    Logon int ``,
-    // c35
-}// c36
-
-options {
-    // c38
-    T = '\x00'
-}// c42a
-// c42b")).
-Eval vm_compute in ("<<<M285>>>" ++ check (runes_of_ascii "packet zchar { @calculatedFrom(
-    ""packet"" )
-    @lengthOf( body ) @lengthOf(A )
-    repeat /// triple
-u128
-    { f32a
-chars `` , repeat x_y_z `tab	here`	, // c
-} , // " ++ [27880; 37322]%N ++ runes_of_ascii "
-repeat
-Logon {// " ++ [27880; 37322]%N ++ runes_of_ascii "
-u@calculatedFrom( // `tick` ""quote"" 'q'
-""// no comment"") //
-`two words` , char
-    u8x , uint32  uint8x  , } , int8
-    asx ``,}
-")).
-Eval vm_compute in ("<<<M1359>>>" ++ check (runes_of_ascii "options
-    {
-	LittleEndian 
+Eval vm_compute in ("<<<M256>>>" ++ check (runes_of_ascii "
+options // " ++ [27880; 37322]%N ++ runes_of_ascii "
+{ T = zchar[ 42
+] options1 = uint8 ;
+lengthOf
 =
-false ; StringPrefixLenType
-
-    =
-u16
-
-; }  packet
-    Heartbeat
-	{ @rightPad(
-
-    '0')
-	char[
-7 ]
-seqNo	,
-	uint64 Tail
-,
-
-    i16
-Flags 
-,
-u16
-msgKind,  } root
-
-packet
-    Reject
-{ 
-zchar[
-	3
-]tag7
-
-,
-    repeat Heartbeat ,	repeat 
-string
-	clOrdID,	}
+    // a // b
+    char[4294967296
+    ]
+    ; } packet Z9_ { repeat
+MetaDataX
+`crlf
+line`
+    ,
+repeat string x_y_z	,
+    u32 x
+, // `tick` ""quote"" 'q'
+@tag(
+// " ++ [128512]%N ++ runes_of_ascii " emoji
+// " ++ [128512]%N ++ runes_of_ascii " emoji
+00 )repeat i64 Logon ,
+u8x
+f32a, repeat
+    lengthOf``, repeat
+stringy Pad
+    // @lengthOf(
+    `
+`,
+    repeat
+    string_ chars `// not a comment` , }
 
 ")).
-Eval vm_compute in ("<<<M177>>>" ++ check (runes_of_ascii "root
+Eval vm_compute in ("<<<M235>>>" ++ check (runes_of_ascii "packet crc
+// a // b
+//x
+{	u128
+    packetx , // " ++ [128512]%N ++ runes_of_ascii " emoji
+match roots	as
+    //
+    falsey
+{ 0123456789 // a // b
+: Header ""packet""// a // b
+: // a // b
+Z9_	3 : A ,
+// trailing space 
+// a // b
+""a	b""  : roots 10
+:  _x
+, } , @tag( 255// a // b
+) match
+calculatedFrom  as	o {
+    255 : string_ """ ++ [28040; 24687]%N ++ runes_of_ascii """ : i64_
+,	} , }MetaData
+T
+{ float64 u	,} packet Pad { /// triple
+}
+")).
+Eval vm_compute in ("<<<M1335>>>" ++ check (runes_of_ascii "options {
+    LittleEndian = true;
+    StringPrefixLenType = u16;
+    FixedStringPadChar = ' ';
+}
 packet Logon {
-    @rightPad
-(// @lengthOf(
-'0' ) repeat
-    charz // " ++ [27880; 37322]%N ++ runes_of_ascii "
-{// " ++ [128512]%N ++ runes_of_ascii " emoji
-Z9_ `{ , }` , string string_ `say ""hi""` , repeat int8  rootA ,	match Foo	as
-pack {
-[ 42
-// c
-/// triple
-, 0 ] :u, ""a\""b"" : int
-,
+    @leftPad('0') char[10] tag7,
 }
-// c
-// `tick` ""quote"" 'q'
-,
-} , }")).
-Eval vm_compute in ("<<<M1247>>>" ++ check (runes_of_ascii "options { LittleEndian // c2a
-  // c2b
-= // c3
-true
-    // c4
-; } root
-    // c7
-packet P // c9a
-  // c9b
-{ repeat char // c12a
-  // c12b
-cs // c13a
-  // c13b
-, // c14a
-  // c14b
-u8
-    // c15
-x
-    // c16
-, // c17
-}
-    // c18
-")).
-Eval vm_compute in ("<<<M10>>>" ++ check (runes_of_ascii "MetaData //	t
-x{
-    } packet rootA
-//x
-//	t
-{ i64	As
-//x
-// @lengthOf(
-@lengthOf(
-    A )
-`// not a comment` ,
-}
-    options { asx =	string ; i8i8 =zchar[
-0123456789 ];	Foo =10 ; As =true
-; }
-")).
-Eval vm_compute in ("<<<M1419>>>" ++ check (runes_of_ascii "packet A {
-    match k as n {
-        [
-            ""a"", ""bb"", 007, ""d"", ""e"",
-            66, ""g"", ""h"", 9, ""j"",
-            ""k"", 12
-        ] : B,
-        2 : C,
+root packet Ack {
+    int32 Px,
+    uint16 count,
+    string Qty,
+    string OrderId,
+    string Flags,
+    u8 x,
+    match x as Body {
+        [58, 169] : Logon,
     },
+}
+")).
+Eval vm_compute in ("<<<M182>>>" ++ check (runes_of_ascii "root packet int {match MetaDataX	as charz
+{ 255 :uint8x , 65535 : // @lengthOf(
+u128 ""\" ++ [233]%N ++ runes_of_ascii """
+:o,0123456789 : _x ""{,}"" :
+    matchKey
+// `tick` ""quote"" 'q'
+// `tick` ""quote"" 'q'
+[4294967296 ,"""" ,	10
+    ]: charz , }	, @lengthOf( roots
+) x @calculatedFrom( ""\n"" )
+    , i32
+    tag , }")).
+Eval vm_compute in ("<<<M1291>>>" ++ check (runes_of_ascii "// top
+root
+    // c0
+packet
+    // c1
+P // c2a
+  // c2b
+{ // c3
+u8 // c4
+s_u8 // c5a
+  // c5b
+, // c6
+repeat u8 // c8a
+  // c8b
+r_u8 // c9a
+  // c9b
+,
+    // c10
+u16 // c11a
+  // c11b
+b_len // c12a
+  // c12b
+, // c13a
+  // c13b
+} // c14a
+  // c14b
+")).
+Eval vm_compute in ("<<<M351>>>" ++ check (runes_of_ascii "MetaData leftPad// packet A { u8 x, }
+{ string u128 `say ""hi""` //
+, // c
+A packetx
+    //	t
+    , char[
+//
+// packet A { u8 x, }
+42
+]
+leftPad
+    `tab	here` // trailing space 
+,i16 crc ,
+string uint8x // a // b
+,
 }")).
-Eval vm_compute in ("<<<M355>>>" ++ check (runes_of_ascii "options  { As = true
-    MetaDataX =true	}	packet A { repeat calculatedFrom `say ""hi""`
-    ,} MetaData crc { u crc ,
-    uint32 body , i16 stringy
-`u8 x,`
-, }
-")).
-Eval vm_compute in ("<<<M478>>>" ++ check (runes_of_ascii "packet uint8x
+Eval vm_compute in ("<<<M1918>>>" ++ check (runes_of_ascii "
+options{
+falsey 
+    /// triple
+    =  false
+	;falsey
+
+    = 
+//
+  int16	// `tick` ""quote"" 'q'
+  ; 
+	// `tick` ""quote"" 'q'
+  A
+    = 
+	// trailing space 
+u32
+    ; trueish = 1  ;  }")).
+Eval vm_compute in ("<<<M1429>>>" ++ check (runes_of_ascii "// top
+options {
+    // c1
+    LittleEndian = true;
+    // c5
+}
+
+// c6
+root packet P {
+    u16 a,// c13
+    u32 Sum @calculatedFrom(""CRC32""),
+    // c19
+}// c20a
+// c20b")).
+Eval vm_compute in ("<<<M392>>>" ++ check (runes_of_ascii "packet packet uint8x
 { match pack
     as msg_type	{
     0123456789 :	float
@@ -721,10 +679,10 @@ Eval vm_compute in ("<<<M478>>>" ++ check (runes_of_ascii "packet uint8x
 ,
 } packet //	t
 a1
-    { char[ options {packetx
+    { } options {packetx
     = '\x00'	; u128= ""a	b""  ; }
 ")).
-Eval vm_compute in ("<<<M516>>>" ++ check (runes_of_ascii "packet uint8x
+Eval vm_compute in ("<<<M523>>>" ++ check (runes_of_ascii "packet uint8x
 { match pack
     as msg_type	{
     0123456789 :	float
@@ -733,32 +691,43 @@ Eval vm_compute in ("<<<M516>>>" ++ check (runes_of_ascii "packet uint8x
 } packet //	t
 a1
     { } options {packetx
-    = '\x00'	; u128= = ""a	b""  ; }
+    = '\x00'	; u128= MetaData  ; }
 ")).
-Eval vm_compute in ("<<<M427>>>" ++ check (runes_of_ascii "packet uint8x
-{ match pack
-    as msg_type	0123456789
-    { :	float
-}
-,
-} packet //	t
-a1
-    { } options {packetx
-    = '\x00'	; u128= ""a	b""  ; }
-")).
-Eval vm_compute in ("<<<M435>>>" ++ check (runes_of_ascii "packet uint8x
+Eval vm_compute in ("<<<M463>>>" ++ check (runes_of_ascii "packet uint8x
 { match pack
     as msg_type	{
-    0123456789 	float
+    0123456789 :	float
+}
+,
+} float32 //	t
+a1
+    { } options {packetx
+    = '\x00'	; u128= ""a	b""  ; }
+")).
+Eval vm_compute in ("<<<M472>>>" ++ check (runes_of_ascii "packet uint8x
+{ match pack
+    as msg_type	{
+    0123456789 :	float
+}
+,
+} packet //	t
+a1
+    } { options {packetx
+    = '\x00'	; u128= ""a	b""  ; }
+")).
+Eval vm_compute in ("<<<M525>>>" ++ check (runes_of_ascii "packet uint8x
+{ match pack
+    as msg_type	{
+    0123456789 :	float
 }
 ,
 } packet //	t
 a1
     { } options {packetx
-    = '\x00'	; u128= ""a	b""  ; }
+    = '\x00'	; u128= ""a	b""   }
 ")).
-Eval vm_compute in ("<<<M410>>>" ++ check (runes_of_ascii "packet uint8x
-{ match 
+Eval vm_compute in ("<<<M405>>>" ++ check (runes_of_ascii "packet uint8x
+{  pack
     as msg_type	{
     0123456789 :	float
 }
@@ -768,32 +737,34 @@ a1
     { } options {packetx
     = '\x00'	; u128= ""a	b""  ; }
 ")).
-Eval vm_compute in ("<<<M677>>>" ++ check (runes_of_ascii "// @lengthOf(
+Eval vm_compute in ("<<<M480>>>" ++ check (runes_of_ascii "packet uint8x
+{ match pack
+    as msg_type	{
+    0123456789 :	float
+}
+,
+} packet //	t
+a1
+    { }  {packetx
+    = '\x00'	; u128= ""a	b""  ; }
+")).
+Eval vm_compute in ("<<<M71>>>" ++ check (runes_of_ascii "root packet MetaDataX
+{repeat u8x len `" ++ [28040; 24687; 31867; 22411]%N ++ runes_of_ascii "`,
+As { u8x
+, } , int f32a
+`" ++ [233]%N ++ runes_of_ascii "`, @lengthOf( float ) Z9_
+// @lengthOf(
+// trailing space 
+`a\` , }")).
+Eval vm_compute in ("<<<M649>>>" ++ check (runes_of_ascii "// @lengthOf(
 packet i8i8 { u128 o , }
-options { MetaDataX = true;
-    BodyLength =""packet"" x_y_z 007 =
-crc //x
-= ""abc"" ;
-    msg_type =
-i16 }")).
-Eval vm_compute in ("<<<M704>>>" ++ check (runes_of_ascii "// @lengthOf(
-packet i8i8 { u128 o , }
-options { MetaDataX = true;
-    BodyLength =""packet"" x_y_z 007
-crc //x
-= ""abc"" ;
-    msg_type =
-i16 }")).
-Eval vm_compute in ("<<<M716>>>" ++ check (runes_of_ascii "// @lengthOf(
-packet i8i8 { u128 o , }
- { MetaDataX = true;
+options {  = true;
     BodyLength =""packet"" x_y_z= 007
 crc //x
 = ""abc"" ;
     msg_type =
 i16 }")).
-Eval vm_compute in ("<<<M1739>>>" ++ check (runes_of_ascii "MetaData leftPad {
-    // c
+Eval vm_compute in ("<<<M1538>>>" ++ check (runes_of_ascii "MetaData leftPad {
     chars MetaDataX,
 }
 
@@ -803,186 +774,195 @@ packet repeatCount {
 
 MetaData pack {
     As Foo,
-}")).
-Eval vm_compute in ("<<<M1264>>>" ++ check (runes_of_ascii "packet B {
-    u8 a,
+}
+// c")).
+Eval vm_compute in ("<<<M1779>>>" ++ check (runes_of_ascii "//
+packet
+metadata	{ 
+} 
+MetaData
+
+    chars
+	    //x
+	//	t
+	{
+char[42
+    ]
+
+leftPad `crlf
+line`
+    ,
+
+    }
+
+")).
+Eval vm_compute in ("<<<M1163>>>" ++ check (runes_of_ascii "MetaData leftPad { chars MetaDataX , } packet repeatCount { char[ // c
+255 ] uint8x `" ++ [233]%N ++ runes_of_ascii "` , } MetaData pack { As Foo , }")).
+Eval vm_compute in ("<<<M218>>>" ++ check (runes_of_ascii "
+MetaData
+uint8x { char[ 007
+    ]leftPad ,Pad
+T ,u64 BodyLength , char[] int  ,float
+Z9_ , float32 metadata
+    , }
+")).
+Eval vm_compute in ("<<<M315>>>" ++ check (runes_of_ascii "packet Foo{ tag roots ,
+    // `tick` ""quote"" 'q'
+    i64_, @calculatedFrom( ""packet"" ) uint32 MetaDataX
+, }
+")).
+Eval vm_compute in ("<<<M1276>>>" ++ check (runes_of_ascii "options {
+    LittleEndian = true;
 }
 root packet P {
-    u8 K,
-    match K as Body {
-        1 : B,
-    },
-    u16 L @lengthOf(Body),
+    u16 a,
+    u32 Sum @calculatedFrom(""CRC32""),
 }
 ")).
-Eval vm_compute in ("<<<M1157>>>" ++ check (runes_of_ascii "MetaData leftPad { chars MetaDataX , } packet // c
-repeatCount { char[ 255 ] uint8x `" ++ [233]%N ++ runes_of_ascii "` , } MetaData pack { As Foo , }")).
-Eval vm_compute in ("<<<M1610>>>" ++ check (runes_of_ascii "
+Eval vm_compute in ("<<<M1614>>>" ++ check (runes_of_ascii "MetaData chars {
+    x_y_z x `line1
+    line2`,
+    _x A `// not a comment`,
+}// `tick` ""quote"" 'q'")).
+Eval vm_compute in ("<<<M568>>>" ++ check (runes_of_ascii "
 packet
-B
-	{ 
-u8 a
-    ,
-    string
-
-s	,
-}
-    root
-packet
-
-    P
+    asx {match match u128 as lengthOf
 {
-u16
-L  @lengthOf(B 
-)  ,	B,
-
-u8
-
-    t ,
-}
-")).
-Eval vm_compute in ("<<<M914>>>" ++ check (runes_of_ascii "packet A {
-  match k as n {
-    [""a"", ""bb"", 007, ""d"", ""e"", 66, ""g"", ""h"", 9, ""j"", ""k"", 12] : B,
-    2 : C
-  },
+//	t
+// `tick` ""quote"" 'q'
+255 : x ,
+    } ,	}")).
+Eval vm_compute in ("<<<M1858>>>" ++ check (runes_of_ascii "packet u {
+    repeat A,
+    @lengthOf(lengthOf)
+    repeat i64 i64_,//
+    zchar[3] body,
 }")).
-Eval vm_compute in ("<<<M24>>>" ++ check (runes_of_ascii "options { metadata
-= '\x00' ;
-    u128
-=
-    ""CRC32"" ; charz = ' 'options1 = 00 ; }
-packet string_ { }
+Eval vm_compute in ("<<<M1540>>>" ++ check (runes_of_ascii "
+packet
+	A {
+
+    Inner {match
+    k
+
+as
+
+    n {
+
+[	1  ]
+    : 
+B ,
+    } ,
+}
+, }
 ")).
-Eval vm_compute in ("<<<M160>>>" ++ check (runes_of_ascii "
-MetaData zchar { roots
-A , char[] falsey `line1
-line2` ,
-// " ++ [128512]%N ++ runes_of_ascii " emoji
-// @lengthOf(
-int crc ,	} //	t")).
-Eval vm_compute in ("<<<M590>>>" ++ check (runes_of_ascii "
+Eval vm_compute in ("<<<M622>>>" ++ check (runes_of_ascii "
 packet
     asx {match u128 as lengthOf
+{
+//	t
+// `tick` ""quote"" 'q'
+255 : x ,
+    } ,	")).
+Eval vm_compute in ("<<<M1401>>>" ++ check (runes_of_ascii "packet A {
+    match k as n {
+        1 : B,
+        // a// b
+        2 : C,
+    },
+}")).
+Eval vm_compute in ("<<<M833>>>" ++ check (runes_of_ascii "packet A {
+  match k as n {
+    [""a"", 22, ""c c"", 4, ""e"", 66] : B
+    2 : C
+  },
+}")).
+Eval vm_compute in ("<<<M802>>>" ++ check (runes_of_ascii "packet A {
+  match k as n {
+    [""a"", ""bb"", ""c c"", ""d""] : B,
+    2 : C
+  },
+}")).
+Eval vm_compute in ("<<<M91>>>" ++ check (runes_of_ascii "packet
+roots{ }	MetaData
+    metadata{
+asx matchKey ,
+uint64
+rootA , }")).
+Eval vm_compute in ("<<<M1409>>>" ++ check (runes_of_ascii "packet metadata {
+    u32 Packet `say ""hi""`,
+    // trailing space 
+}")).
+Eval vm_compute in ("<<<M1101>>>" ++ check (runes_of_ascii "// top
 MetaData
-//	t
-// `tick` ""quote"" 'q'
-255 : x ,
-    } ,	}")).
-Eval vm_compute in ("<<<M578>>>" ++ check (runes_of_ascii "
-packet
-    asx {match u128 as as lengthOf
+    // c0
+tag
+    // c1
 {
-//	t
-// `tick` ""quote"" 'q'
-255 : x ,
-    } ,	}")).
-Eval vm_compute in ("<<<M633>>>" ++ check (runes_of_ascii "
-packet
-    asx {match u128 as `lengthOf
-{
-//	t
-// `tick` ""quote"" 'q'
-255 : x ,
-    } ,	}")).
-Eval vm_compute in ("<<<M562>>>" ++ check (runes_of_ascii "
-packet
-    asx match u128 as lengthOf
-{
-//	t
-// `tick` ""quote"" 'q'
-255 : x ,
-    } ,	}")).
-Eval vm_compute in ("<<<M570>>>" ++ check (runes_of_ascii "
-packet
-    asx {{ u128 as lengthOf
-{
-//	t
-// `tick` ""quote"" 'q'
-255 : x ,
-    } ,	}")).
-Eval vm_compute in ("<<<M847>>>" ++ check (runes_of_ascii "packet A {
+    // c2
+}
+    // c3
+")).
+Eval vm_compute in ("<<<M775>>>" ++ check (runes_of_ascii "packet A {
   match k as n {
-    [1, 22, ""c c"", 4, 5, ""f"", 7] : B,
+    [""a""] : B,
     2 : C
   },
 }")).
-Eval vm_compute in ("<<<M1905>>>" ++ check (runes_of_ascii "packet A {
-    // a
-    @tag(1)
-    u8 x,// b
-    // c
-    @tag(2)
-    u8 y,
-}")).
-Eval vm_compute in ("<<<M1958>>>" ++ check (runes_of_ascii "options {
-    lengthOf = 3
-    trueish = true;
-    calculatedFrom = 007;
-}")).
-Eval vm_compute in ("<<<M798>>>" ++ check (runes_of_ascii "packet A {
-  match k as n {
-    [""a"", ""bb"", 007] : B
-    2 : C
-  },
-}")).
-Eval vm_compute in ("<<<M788>>>" ++ check (runes_of_ascii "packet A {
-  match k as n {
-    [1, 22, 007] : B
-    2 : C
-  },
-}")).
-Eval vm_compute in ("<<<M948>>>" ++ check (runes_of_ascii "packet A {
-    B b `x
-`,
-    B `x
-`,
-    repeat B bs `x
-`,
-}")).
-Eval vm_compute in ("<<<M767>>>" ++ check (runes_of_ascii "@rightPad char[] string u16 @tag( @lengthOf( as packet ,")).
-Eval vm_compute in ("<<<M1204>>>" ++ check (runes_of_ascii "packet body {
+Eval vm_compute in ("<<<M1679>>>" ++ check (runes_of_ascii "MetaData
+
+M
+	{ u8
+
+    x `tab
+	x`	,
+
+T  t`tab
+	x` , }")).
+Eval vm_compute in ("<<<M1208>>>" ++ check (runes_of_ascii "packet body { i32 f32a
 // c
-i32 f32a `{ , }` , } options { }")).
-Eval vm_compute in ("<<<M1073>>>" ++ check (runes_of_ascii "packet A {} packet B {} MetaData M {} options {}")).
-Eval vm_compute in ("<<<M47>>>" ++ check (runes_of_ascii "MetaData	lengthOf
-{
-Header o `doc`
-    ,}
-")).
-Eval vm_compute in ("<<<M325>>>" ++ check (runes_of_ascii "packet charz { } // packet A { u8 x, }")).
-Eval vm_compute in ("<<<M1741>>>" ++ check (runes_of_ascii "MetaData M{
-
-} // c
-  options {}
-
-")).
-Eval vm_compute in ("<<<M1857>>>" ++ check (runes_of_ascii "
-
-  MetaData
-u
-{} 
-      // c
-")).
-Eval vm_compute in ("<<<M83>>>" ++ check (runes_of_ascii "
-options{ options1 =	7 ;
+`{ , }` , } options { }")).
+Eval vm_compute in ("<<<M1243>>>" ++ check (runes_of_ascii "root packet P {
+    repeat char cs,
+    u8 x,
 }
 ")).
-Eval vm_compute in ("<<<M1820>>>" ++ check (runes_of_ascii "packet A {
+Eval vm_compute in ("<<<M429>>>" ++ check (runes_of_ascii "packet uint8x
+{ match pack
+    as msg_type")).
+Eval vm_compute in ("<<<M971>>>" ++ check (runes_of_ascii "options {
+    a = ""\
+"";
+    b = ""\
+""
+}")).
+Eval vm_compute in ("<<<M1958>>>" ++ check (runes_of_ascii "packet A {
+    u8 x `
+        `,
+}")).
+Eval vm_compute in ("<<<M276>>>" ++ check (runes_of_ascii "MetaData repeatCount { }
+//	t
+")).
+Eval vm_compute in ("<<<M270>>>" ++ check (runes_of_ascii "  root packet msg_type
+{
+}
+")).
+Eval vm_compute in ("<<<M1930>>>" ++ check (runes_of_ascii "packet A {
 }// a// b// c")).
-Eval vm_compute in ("<<<M1391>>>" ++ check (runes_of_ascii "packet x {
+Eval vm_compute in ("<<<M1510>>>" ++ check (runes_of_ascii "packet x {
     // c
 }")).
-Eval vm_compute in ("<<<M1134>>>" ++ check (runes_of_ascii "MetaData u { // c
-}")).
-Eval vm_compute in ("<<<M1031>>>" ++ check (runes_of_ascii "packet A {
-}
-// c" ++ [11]%N)).
-Eval vm_compute in ("<<<M1024>>>" ++ check (runes_of_ascii "packet A {
-}// c" ++ [8287]%N)).
-Eval vm_compute in ("<<<M1746>>>" ++ check (runes_of_ascii "
-/// triple
- 
+Eval vm_compute in ("<<<M95>>>" ++ check (runes_of_ascii "
+packet  Logon {}
 ")).
-Eval vm_compute in ("<<<M252>>>" ++ check (runes_of_ascii " // c")).
-Eval vm_compute in ("<<<M728>>>" ++ check (runes_of_ascii "		")).
+Eval vm_compute in ("<<<M1046>>>" ++ check (runes_of_ascii "packet A {
+}
+// c" ++ [8203]%N)).
+Eval vm_compute in ("<<<M1049>>>" ++ check (runes_of_ascii "packet A {
+}// c" ++ [65279]%N)).
+Eval vm_compute in ("<<<M626>>>" ++ check (runes_of_ascii "
+packet
+    as")).
+Eval vm_compute in ("<<<M1891>>>" ++ check (runes_of_ascii "
+// c" ++ [11]%N)).
+Eval vm_compute in ("<<<M86>>>" ++ check (runes_of_ascii "  ")).
